@@ -10,7 +10,7 @@ var allPolicies = []model.Handling{model.HDefault, model.HReplace, model.HReplac
 // Flavours per property (DESIGN.md section 6).
 var Flavours = map[string]*Flavour{
 	"C12": {Prop: "C12", WCreate: 1, WMerge: 1, WSet: 6, WSetChild: 2, WRemove: 3, WChild: 2, WRead: 4, WIllegal: 1,
-		Policies: []model.Handling{model.HDefault}, Nil: true},
+		Policies: []model.Handling{model.HDefault}, Nil: true, Reattach: true},
 	"C01": {Prop: "C01", WCreate: 2, WMerge: 8, WRead: 1,
 		Policies: allPolicies, Nil: true, Mixed: true},
 	"C16": {Prop: "C16", WCreate: 2, WMerge: 8, WRead: 1,
